@@ -990,7 +990,17 @@ static Verdict runCase(const Case& c)
    {
       for(int t = 0; t < T; t++) runProg(ps[t], t, d[t], inf[t]);
    };
-   if(!first) sequential(seqA, infA);
+   auto dump = [&]()   // debugging aid (--x dump=1): the digests of the first solo run
+   {
+      if(opts().xi("dump", 0))
+         for(int t = 0; t < T; t++)
+            for(auto& kv : seqA[t]) fprintf(stderr, "t%d %s %s = %s\n", t, modeName(ps[t].mode), kv.first.c_str(), shortv(kv.second).c_str());
+   };
+   if(!first)
+   {
+      sequential(seqA, infA);
+      dump();
+   }
    std::vector<double> sink(T, 0.0);
    for(int r = 0; r < reps; r++)
    {
@@ -1009,13 +1019,11 @@ static Verdict runCase(const Case& c)
    if(first)
    {
       sequential(seqA, infA);
+      dump();
       sequential(seqB, infB);
    }
    else sequential(seqB, infB);
 
-   if(opts().xi("dump", 0))   // debugging aid: the digests of the first solo run
-      for(int t = 0; t < T; t++)
-         for(auto& kv : seqA[t]) fprintf(stderr, "t%d %s %s = %s\n", t, modeName(ps[t].mode), kv.first.c_str(), shortv(kv.second).c_str());
    // evidence (main thread only)
    e.count(std::string("flavour.") + (isTsan ? "tsan" : "plain"));
    e.count("threads." + std::to_string(T));
